@@ -858,5 +858,6 @@ func init() {
 			Rule:   "histories of 6-12 events on the real process-wide clock with SetTimeoutCheckPeriod(1ms) (every 4th: 4 or 16 c14Ms): catastrophic (a+)+$ matches with MatchTimeout 20-81ms, matches of a few c14Ms and instant matches with timeouts from 20ms to MaxInt64 (incl. MaxInt64-1, MaxInt64-period, MaxInt64-period+1), idle gaps 0-120ms, one gap beyond deadline+1s+period per history, StopTimeoutClock, 2-4 concurrent matches with different deadlines; a stack dump after every event. Oracle: a catastrophic match returns a timeout error, no timeout is reported before d - 2 ticks - eps (eps = 10ms for a deadline made while the clock was running, 0 when it was seen stopped), none later than d + 2 periods + 1 tick + allowance (150ms quick / 250ms thorough), the goroutine is gone after StopTimeoutClock and once every deadline + 1s + 2 periods (+allowance) has passed. Correspondence: the same history with measured timestamps run on the Lean model (ideal ticks): no timeout before the model's deadline can be reached (sharp when the clock was seen stopped before the call), goroutine present while the model's clock runs, gone after it left its loop. A finding counts only if its class recurs in 3 of 3 runs of the history. non-trivial = more than one event; distinct by history",
 			Corpus: c14Corpus(), N: c.N(9, 330), Gen: c14Gen, Check: c14Check,
 		})
+		c14BurstLeg(c)
 	})
 }
